@@ -279,6 +279,15 @@ def replay(spec, acc):
     td = TokenDictionary()
     enc, dec = WriteEncoder(td), ReadDecoder(td)
     cid = spec["witness"]["case"]
+    # in the run the case may have followed a refused frame on the same objects (every third case ends with one): replay that
+    # part of the history too, once per kind, so that a violation which needs it reproduces
+    body = bytes(enc.protocolTreeNodeToBytes(treeeq.to_node(("iq", {"id": "replay-prelude", "type": "get"}, [("ping", {}, [], None)], None))))[1:]
+    for bad in (bytes([0]) + body[:len(body) // 2], bytes([0, 248, 2, 234, 5]), bytes([2]) + body, bytes([3]) + body[:7], bytes([1]) + body):
+        for target in (lambda b: dec.getProtocolTreeNode(list(b)), lambda b: coder_pair()[2].receive(b)):
+            try:
+                target(bad)
+            except Exception:  # noqa
+                pass
     sib = cid.endswith("/sibling")
     if sib:
         cid = cid[:-len("/sibling")]
